@@ -24,6 +24,7 @@ import numpy as np
 ID = "C06"
 FLAVOUR = "plain"
 LEVEL = "exploration"
+THOROUGH_MULT = 2.0       # deepens the sampled strata of the thorough tier (measured: about ten minutes on 16 cores)
 RULE = (
     "seeded generators.  enum_pos: complete product of a fixed list of representative awkward values "
     "(leading _ # ; $ [ ] ' \" . ?, reserved words data_/loop_/save_/stop_/global_ in three casings, blanks, tabs, "
